@@ -380,16 +380,23 @@ theorem record_not_equivalent {eq : α → α → Bool} (r1 r2 : Rec α) (hq : R
     Rec.eq eq r1 r2 = none := Rec.eq_none r1 r2 hq
 
 /-! ### box, sphere -/
-theorem box_eq_iff_components {n : Nat} {eq : α → α → Bool} (he : LawfulEq eq) (a b : Box α n) :
-    Box.eq eq a b = true ↔ a = b := Box.eq_iff he a b
-theorem box_eq_equivalence {n : Nat} {eq : α → α → Bool} (he : LawfulEq eq) : IsEquivalence (Box.eq (n := n) eq) :=
-  LawfulEq.isEquivalence (Box.eq_iff he)
-theorem box_ne_eq_not {n : Nat} (eq : α → α → Bool) (a b : Box α n) : Box.ne eq a b = !Box.eq eq a b := rfl
-theorem box_lt_strict_weak {n : Nat} {lt : α → α → Bool} (h : StrictTotal lt) : StrictWeak (Box.lt (n := n) lt) :=
-  (Box.lt_strictTotal h).strictWeak
-theorem box_lt_compatible_eq {n : Nat} {eq lt : α → α → Bool} (he : LawfulEq eq) (h : StrictTotal lt) :
-    Compatible (fun a b : Box α n => Box.eq eq a b = true) (Box.lt lt) :=
-  compatible_of (Box.eq_iff he) (Box.lt_strictTotal h)
+/-- the class stores `min_` and `max_`; `==` compares `pos()` = `min_` and `size()` = `max_ - min_`.  When the
+coordinate type's `-` can be undone (integers, also modulo 2^n) this is equality of the two stored corners, i.e. of
+every observable component -/
+theorem box_eq_iff_components {n : Nat} {sub : α → α → α} {eq : α → α → Bool} (hs : SubCancel sub) (he : LawfulEq eq)
+    (a b : Box α n) : Box.eq sub eq a b = true ↔ a = b := Box.eq_iff hs he a b
+theorem box_eq_equivalence {n : Nat} {sub : α → α → α} {eq : α → α → Bool} (hs : SubCancel sub) (he : LawfulEq eq) :
+    IsEquivalence (Box.eq (n := n) sub eq) := LawfulEq.isEquivalence (Box.eq_iff hs he)
+theorem box_ne_eq_not {n : Nat} (sub : α → α → α) (eq : α → α → Bool) (a b : Box α n) :
+    Box.ne sub eq a b = !Box.eq sub eq a b := rfl
+theorem box_lt_strict_weak {n : Nat} {sub : α → α → α} {lt : α → α → Bool} (hs : SubCancel sub) (h : StrictTotal lt) :
+    StrictWeak (Box.lt (n := n) sub lt) := (Box.lt_strictTotal hs h).strictWeak
+theorem box_lt_compatible_eq {n : Nat} {sub : α → α → α} {eq lt : α → α → Bool} (hs : SubCancel sub) (he : LawfulEq eq)
+    (h : StrictTotal lt) : Compatible (fun a b : Box α n => Box.eq sub eq a b = true) (Box.lt sub lt) :=
+  compatible_of (Box.eq_iff hs he) (Box.lt_strictTotal hs h)
+/-- the `(pos, size)` constructor: `pos()` and `size()` give the arguments back -/
+theorem box_pos_size_round_trip {n : Nat} {add sub : α → α → α} (hadd : ∀ p s, sub (add p s) p = s) (p s : Vector α n) :
+    (Box.ofPosSize add p s).pos = p ∧ (Box.ofPosSize add p s).size sub = s := Box.ofPosSize_spec hadd p s
 theorem sphere_eq_iff_components {n : Nat} {eq : α → α → Bool} (he : LawfulEq eq) (a b : Sphere α n) :
     Sphere.eq eq a b = true ↔ a = b := Sphere.eq_iff he a b
 theorem sphere_eq_equivalence {n : Nat} {eq : α → α → Bool} (he : LawfulEq eq) : IsEquivalence (Sphere.eq (n := n) eq) :=
@@ -485,6 +492,19 @@ theorem recursive_eq_iff_components {eq : α → α → Bool} (he : LawfulEq eq)
     Recursive.eq eq a b = true ↔ a = b := he a b
 theorem recursive_ne_eq_not (eq : α → α → Bool) (a b : α) : Recursive.ne eq a b = !Recursive.eq eq a b := rfl
 
+/-! ### unit, iterator::range -/
+theorem unit_eq_iff_components (a b : Unit) : UnitT.eq a b = true ↔ a = b := by simp [UnitT.eq]
+theorem unit_eq_equivalence : IsEquivalence UnitT.eq := ⟨fun _ => rfl, fun _ _ _ => rfl, fun _ _ _ _ _ => rfl⟩
+theorem unit_ne_eq_not (a b : Unit) : UnitT.ne a b = !UnitT.eq a b := rfl
+/-- two ranges are equal exactly when they begin and end at the same iterators -/
+theorem iterator_range_eq_iff_components {eqI : α → α → Bool} (he : LawfulEq eqI) (a b : α × α) :
+    IterRange.eq eqI a b = true ↔ a = b := by
+  cases a; cases b
+  simp [IterRange.eq, he _ _]
+theorem iterator_range_eq_equivalence {eqI : α → α → Bool} (he : LawfulEq eqI) : IsEquivalence (IterRange.eq eqI) :=
+  LawfulEq.isEquivalence (iterator_range_eq_iff_components he)
+theorem iterator_range_ne_eq_not (eqI : α → α → Bool) (a b : α × α) : IterRange.ne eqI a b = !IterRange.eq eqI a b := rfl
+
 /-! ### reference -/
 /-- two references are equal exactly when they designate the same object -/
 theorem reference_eq_iff_components (a b : Ref) : Ref.eq a b = true ↔ a = b := Ref.eq_iff a b
@@ -541,6 +561,9 @@ example : StrictTotal (fun a b : Int => decide (a < b)) where
   irrefl a := by simp
   trans a b c := by simp only [decide_eq_true_eq]; omega
   total a b := by simp only [decide_eq_true_eq]; omega
+-- integer subtraction can be undone (the hypothesis of the box theorems)
+example : SubCancel (fun a b : Int => a - b) := fun a b c h => by simp only at h; omega
+example : ∀ p s : Int, (p + s) - p = s := by intro p s; omega
 -- signed overflow is a fault, unsigned wraps
 example : IntTy.i32.add 2147483647 1 = .error .signedOverflow := by rfl
 example : IntTy.u32.add 4294967295 1 = .ok 0 := by rfl
